@@ -8,6 +8,7 @@ import (
 	"crypto/x509"
 	"encoding/json"
 	"fmt"
+	"golang.org/x/crypto/ssh/agent"
 	"math/rand"
 	"net"
 	"os"
@@ -124,6 +125,13 @@ type Signer struct {
 	// NonCert adds a plain public key to the reply: at its end, or (NonCertPos = k > 0) before the k-th certificate
 	NonCert    bool
 	NonCertPos int
+	// ShortFirst: in a reply of several certificates the earlier ones are issued for less than was asked (a CA may cap
+	// what it grants): certificate i of n runs validity*(i+1)/n seconds. The harness CA sets ValidAfter to the time of
+	// issue minus IssueSkew, so a certificate's own validity can be read back from it.
+	ShortFirst bool
+	// AsAgentKey: the certificates are handed back as *agent.Key (type + blob), as a signer that passes on what it read
+	// from a wire may, instead of *ssh.Certificate. Calls[i].Certs still holds the certificates themselves.
+	AsAgentKey bool
 	// Scribble: after keeping its own copy, the signer edits the request it was handed (as a CA client
 	// wrapper may do): later requests must not be affected
 	Scribble bool
@@ -186,8 +194,15 @@ func (s *Signer) Sign(ctx context.Context, req *proto.SSHCertificateSigningReque
 				}
 			}
 		}
+		granted := req.Validity
+		if s.ShortFirst && n > 1 {
+			granted = req.Validity * uint64(i+1) / uint64(n)
+			if granted == 0 {
+				granted = 1
+			}
+		}
 		c := &ssh.Certificate{Key: ck, Serial: uint64(idx*10 + i), CertType: ssh.UserCert, KeyId: req.KeyId, ValidPrincipals: req.Principals,
-			ValidAfter: now - 60, ValidBefore: now + req.Validity, Permissions: ssh.Permissions{Extensions: req.Extensions}}
+			ValidAfter: now - IssueSkew, ValidBefore: now + granted, Permissions: ssh.Permissions{Extensions: req.Extensions}}
 		if i%2 == 1 {
 			c.Permissions.CriticalOptions = map[string]string{"touchless-sudo-hosts": "h"}
 		}
@@ -208,8 +223,18 @@ func (s *Signer) Sign(ctx context.Context, req *proto.SSHCertificateSigningReque
 	if s.After != nil {
 		s.After(idx)
 	}
+	if s.AsAgentKey {
+		wrapped := make([]ssh.PublicKey, len(out))
+		for i, k := range out {
+			wrapped[i] = &agent.Key{Format: k.Type(), Blob: k.Marshal()}
+		}
+		return wrapped, comments, nil
+	}
 	return out, comments, nil
 }
+
+// IssueSkew is how far before the time of issue the harness CA dates its certificates.
+const IssueSkew = 60
 
 // NumCalls returns the number of signer calls so far.
 func (s *Signer) NumCalls() int { s.mu.Lock(); defer s.mu.Unlock(); return len(s.Calls) }
